@@ -1,24 +1,31 @@
 //! Correspondence harness for engine `fft` (property C04): drives `rlib_fft::FFT<f64>` and `FFT<f32>`.
 //!
-//! Case:  `fft <f64|f32> ; op ; op ; … ; op` — every op is a call on ONE object; the answer is the
-//! result of the LAST op (the earlier ones are the history the object has seen).
+//! Case:  `fft <f64|f32> [new|default|clone|histclone] ; step ; step ; … ; step` — a step is a call on one of 4 live
+//! objects (`@k op`, default object 0) or a pool operation (`cl j k` clone, `cf j k` clone_from, `df k` default,
+//! `nw k` new, `tk j k` std::mem::take); the answer is the result of the LAST step (the earlier ones are the history).
 //! ops:   `u n` | `m a b` | `mi a b res` | `f v n` | `fi v n rx ry` | `inv xs ys` | `ii xs ys res` | `fm a b n` | `fmx a b n` | `fmi a b n res`
+//!        | `fx rpn n res v0 [v1 …]` (forward transforms, a per-bin expression built from the operators of `Complex<F>`, `fft_inv_into`)
 //! raw:   i64 vectors (`[..]`, digest above 48 entries), complex vectors as bit patterns
 //! view:  `<vec> fresh=<same|diff> oracle=<exact|wrong>` — `fresh` repeats the last call on a brand-new
-//!        object and compares bit for bit; `oracle` is an exact i128 schoolbook convolution.
+//!        object and compares bit for bit; `oracle` is an exact i128 schoolbook convolution (for `fx`: exact arithmetic
+//!        in Z[i][x]/(x^n-1)); `add=<ok|wrong>` for `fi`/`ii`: destination += what `fft`/`fft_inv` returns.
 #[path = "../../common/mod.rs"]
 mod common;
 use common::*;
 use rlib_fft::{Complex, FFT};
-use rlib_num_traits::Float;
+use rlib_num_traits::{Float, ZeroOne};
 
 trait HF: Float {
     fn bits(self) -> u64;
+    fn of_bits(b: u64) -> Self;
     const NAME: &'static str;
 }
 impl HF for f64 {
     fn bits(self) -> u64 {
         self.to_bits()
+    }
+    fn of_bits(b: u64) -> Self {
+        f64::from_bits(b)
     }
     const NAME: &'static str = "f64";
 }
@@ -26,7 +33,40 @@ impl HF for f32 {
     fn bits(self) -> u64 {
         self.to_bits() as u64
     }
+    fn of_bits(b: u64) -> Self {
+        f32::from_bits(b as u32)
+    }
     const NAME: &'static str = "f32";
+}
+
+/// One token of the reverse Polish per-bin expression of `fx`: which PUBLIC operator of `Complex<F>` is applied, in
+/// which form (operator / assign form, Copy / `.clone()` of an operand, `ZERO` / `default()`).
+#[derive(Clone, Debug, PartialEq)]
+enum Tok {
+    Leaf(usize),
+    LeafClone(usize),
+    /// `let mut t = Complex::default(); t.clone_from(&operand)`
+    LeafCloneFrom(usize),
+    Zero,
+    DefaultZ,
+    One,
+    I,
+    Add,
+    AddA,
+    Sub,
+    SubA,
+    Mul,
+    MulA,
+    Div,
+    DivA,
+    Neg,
+    Conj,
+    Abs2,
+    Absq,
+    Scale(i32),
+    ScaleA(i32),
+    DivS(i32),
+    DivSA(i32),
 }
 
 #[derive(Clone, Debug)]
@@ -43,7 +83,22 @@ enum Op {
     Fmx(Vec<i32>, Vec<i32>, usize),
     /// forward transforms, pointwise product, fft_inv_into with a pre-filled destination of any length
     Fmi(Vec<i32>, Vec<i32>, usize, Vec<i64>),
+    /// forward transforms of all operands, the expression bin by bin, fft_inv_into with the destination
+    Fx(Vec<Tok>, Vec<Vec<i32>>, usize, Vec<i64>),
 }
+
+/// A step of a case: a call on object `k` of the pool, or a pool operation.
+#[derive(Clone, Debug)]
+enum Step {
+    Call(usize, Op),
+    Clone(usize, usize),
+    CloneFrom(usize, usize),
+    Default(usize),
+    Fresh(usize),
+    Take(usize, usize),
+}
+
+const POOL: usize = 4;
 
 #[derive(Clone, PartialEq)]
 enum Out {
@@ -61,9 +116,79 @@ fn parse_vec<T: std::str::FromStr>(s: &str) -> Option<Vec<T>> {
     s.split(',').map(|t| t.parse::<T>().ok()).collect()
 }
 
-fn parse_op(s: &str) -> Option<Op> {
-    let t: Vec<&str> = s.split_whitespace().collect();
-    match t.as_slice() {
+fn parse_tok(t: &str) -> Option<Tok> {
+    Some(match t {
+        "Z" => Tok::Zero,
+        "Dz" => Tok::DefaultZ,
+        "O" => Tok::One,
+        "I" => Tok::I,
+        "+" => Tok::Add,
+        "+=" => Tok::AddA,
+        "-" => Tok::Sub,
+        "-=" => Tok::SubA,
+        "*" => Tok::Mul,
+        "*=" => Tok::MulA,
+        "/" => Tok::Div,
+        "/=" => Tok::DivA,
+        "neg" => Tok::Neg,
+        "conj" => Tok::Conj,
+        "abs2" => Tok::Abs2,
+        "absq" => Tok::Absq,
+        _ => {
+            if let Ok(i) = t.parse::<usize>() {
+                Tok::Leaf(i)
+            } else if let Some(i) = t.strip_prefix("cf").and_then(|r| r.parse::<usize>().ok()) {
+                Tok::LeafCloneFrom(i)
+            } else if let Some(i) = t.strip_prefix('c').and_then(|r| r.parse::<usize>().ok()) {
+                Tok::LeafClone(i)
+            } else if let Some(k) = t.strip_prefix("s=").and_then(|r| r.parse::<i64>().ok()) {
+                Tok::ScaleA(i32::try_from(k).ok()?)
+            } else if let Some(k) = t.strip_prefix('s').and_then(|r| r.parse::<i64>().ok()) {
+                Tok::Scale(i32::try_from(k).ok()?)
+            } else if let Some(k) = t.strip_prefix("d=").and_then(|r| r.parse::<i64>().ok()) {
+                Tok::DivSA(i32::try_from(k).ok()?)
+            } else if let Some(k) = t.strip_prefix('d').and_then(|r| r.parse::<i64>().ok()) {
+                Tok::DivS(i32::try_from(k).ok()?)
+            } else {
+                return None;
+            }
+        }
+    })
+}
+
+/// Number of stack entries consumed by a token (it always produces one).
+fn arity(t: &Tok) -> usize {
+    match t {
+        Tok::Leaf(_) | Tok::LeafClone(_) | Tok::LeafCloneFrom(_) | Tok::Zero | Tok::DefaultZ | Tok::One | Tok::I => 0,
+        Tok::Add | Tok::AddA | Tok::Sub | Tok::SubA | Tok::Mul | Tok::MulA | Tok::Div | Tok::DivA => 2,
+        _ => 1,
+    }
+}
+
+/// A well-formed expression: the stack never underflows and exactly one value is left.
+fn rpn_ok(toks: &[Tok]) -> bool {
+    let mut depth = 0usize;
+    for t in toks {
+        if depth < arity(t) {
+            return false;
+        }
+        depth = depth - arity(t) + 1;
+    }
+    depth == 1
+}
+
+fn parse_rpn(s: &str) -> Option<Vec<Tok>> {
+    let toks: Option<Vec<Tok>> = s.split(',').map(parse_tok).collect();
+    let toks = toks?;
+    if rpn_ok(&toks) {
+        Some(toks)
+    } else {
+        None
+    }
+}
+
+fn parse_op_tokens(t: &[&str]) -> Option<Op> {
+    match t {
         ["u", n] => Some(Op::U(n.parse().ok()?)),
         ["m", a, b] => Some(Op::M(parse_vec(a)?, parse_vec(b)?)),
         ["mi", a, b, r] => Some(Op::Mi(parse_vec(a)?, parse_vec(b)?, parse_vec(r)?)),
@@ -74,7 +199,33 @@ fn parse_op(s: &str) -> Option<Op> {
         ["fm", a, b, n] => Some(Op::Fm(parse_vec(a)?, parse_vec(b)?, n.parse().ok()?)),
         ["fmx", a, b, n] => Some(Op::Fmx(parse_vec(a)?, parse_vec(b)?, n.parse().ok()?)),
         ["fmi", a, b, n, r] => Some(Op::Fmi(parse_vec(a)?, parse_vec(b)?, n.parse().ok()?, parse_vec(r)?)),
+        ["fx", rpn, n, r, vs @ ..] if !vs.is_empty() => {
+            let vs: Option<Vec<Vec<i32>>> = vs.iter().map(|v| parse_vec(v)).collect();
+            Some(Op::Fx(parse_rpn(rpn)?, vs?, n.parse().ok()?, parse_vec(r)?))
+        }
         _ => None,
+    }
+}
+
+fn parse_idx(s: &str) -> Option<usize> {
+    let k: usize = s.parse().ok()?;
+    if k < POOL {
+        Some(k)
+    } else {
+        None
+    }
+}
+
+fn parse_step(s: &str) -> Option<Step> {
+    let t: Vec<&str> = s.split_whitespace().collect();
+    match t.as_slice() {
+        ["cl", j, k] => Some(Step::Clone(parse_idx(j)?, parse_idx(k)?)),
+        ["cf", j, k] => Some(Step::CloneFrom(parse_idx(j)?, parse_idx(k)?)),
+        ["df", k] => Some(Step::Default(parse_idx(k)?)),
+        ["nw", k] => Some(Step::Fresh(parse_idx(k)?)),
+        ["tk", j, k] => Some(Step::Take(parse_idx(j)?, parse_idx(k)?)),
+        [first, rest @ ..] if first.starts_with('@') => Some(Step::Call(parse_idx(&first[1..])?, parse_op_tokens(rest)?)),
+        _ => Some(Step::Call(0, parse_op_tokens(&t)?)),
     }
 }
 
@@ -96,6 +247,12 @@ fn fft_size(len: usize, n: usize) -> usize {
     n
 }
 
+/// the two forward transforms of a composite choose the same size (`n = 0`: each `fft(v, 0)` chooses its own)
+fn composite_ok(a: &[i32], b: &[i32], n: usize) -> bool {
+    let na = fft_size(a.len(), n);
+    na == fft_size(b.len(), n) && is_pow2(na) && na <= MAX_N && a.len() <= na && b.len() <= na
+}
+
 /// Preconditions that fft.rs states as `debug_assert!` (or that make the result profile dependent):
 /// such calls are not made at all.
 fn valid(op: &Op) -> bool {
@@ -106,7 +263,18 @@ fn valid(op: &Op) -> bool {
         Op::Fi(v, n, rx, ry) => rx.len() == ry.len() && v.len() <= fft_size(v.len(), *n) && *n <= MAX_N,
         Op::Inv(xs, ys) => xs.len() == ys.len() && is_pow2(xs.len()),
         Op::Ii(xs, ys, _) => xs.len() == ys.len() && is_pow2(xs.len()),
-        Op::Fm(a, b, n) | Op::Fmx(a, b, n) | Op::Fmi(a, b, n, _) => is_pow2(*n) && *n <= MAX_N && a.len() <= *n && b.len() <= *n,
+        Op::Fm(a, b, n) | Op::Fmx(a, b, n) | Op::Fmi(a, b, n, _) => composite_ok(a, b, *n),
+        Op::Fx(toks, vs, n, _) => {
+            is_pow2(*n)
+                && *n <= MAX_N
+                && vs.len() <= 10
+                && vs.iter().all(|v| v.len() <= *n)
+                && toks.iter().all(|t| match t {
+                    Tok::Leaf(i) | Tok::LeafClone(i) | Tok::LeafCloneFrom(i) => *i < vs.len(),
+                    Tok::DivS(k) | Tok::DivSA(k) => *k != 0,
+                    _ => true,
+                })
+        }
     }
 }
 
@@ -116,6 +284,95 @@ fn cplx<F: HF>(xs: &[i32], ys: &[i32]) -> Vec<Complex<F>> {
 
 fn cbits<F: HF>(v: &[Complex<F>]) -> Vec<(u64, u64)> {
     v.iter().map(|c| (c.x.bits(), c.y.bits())).collect()
+}
+
+fn of_cbits<F: HF>(v: &[(u64, u64)]) -> Vec<Complex<F>> {
+    v.iter().map(|&(r, i)| Complex::new(F::of_bits(r), F::of_bits(i))).collect()
+}
+
+/// The expression at bin `p`, computed with the crate's own operators in exactly the form the token names.
+#[allow(clippy::clone_on_copy)]
+fn eval_bin<F: HF>(toks: &[Tok], leaves: &[Vec<Complex<F>>], p: usize) -> Complex<F> {
+    let mut st: Vec<Complex<F>> = Vec::with_capacity(8);
+    for t in toks {
+        match t {
+            Tok::Leaf(i) => st.push(leaves[*i][p]),
+            Tok::LeafClone(i) => st.push(leaves[*i][p].clone()),
+            Tok::LeafCloneFrom(i) => {
+                let mut t = Complex::<F>::default();
+                t.clone_from(&leaves[*i][p]);
+                st.push(t);
+            }
+            Tok::Zero => st.push(<Complex<F> as ZeroOne>::ZERO),
+            Tok::DefaultZ => st.push(Complex::<F>::default()),
+            Tok::One => st.push(<Complex<F> as ZeroOne>::ONE),
+            Tok::I => st.push(Complex::<F>::I),
+            Tok::Add | Tok::AddA | Tok::Sub | Tok::SubA | Tok::Mul | Tok::MulA | Tok::Div | Tok::DivA => {
+                let b = st.pop().unwrap();
+                let a = st.pop().unwrap();
+                let mut acc = a;
+                let r = match t {
+                    Tok::Add => a + b,
+                    Tok::Sub => a - b,
+                    Tok::Mul => a * b,
+                    Tok::Div => a / b,
+                    Tok::AddA => {
+                        acc += b;
+                        acc
+                    }
+                    Tok::SubA => {
+                        acc -= b;
+                        acc
+                    }
+                    Tok::MulA => {
+                        acc *= b;
+                        acc
+                    }
+                    _ => {
+                        acc /= b;
+                        acc
+                    }
+                };
+                st.push(r);
+            }
+            Tok::Neg => {
+                let a = st.pop().unwrap();
+                st.push(-a);
+            }
+            Tok::Conj => {
+                let a = st.pop().unwrap();
+                st.push(a.conj());
+            }
+            Tok::Abs2 => {
+                let a = st.pop().unwrap();
+                st.push(Complex::new_real(a.abs2()));
+            }
+            Tok::Absq => {
+                let a = st.pop().unwrap();
+                let r = a.abs();
+                st.push(Complex::new_real(r * r));
+            }
+            Tok::Scale(k) => {
+                let a = st.pop().unwrap();
+                st.push(a * F::from_i32(*k));
+            }
+            Tok::ScaleA(k) => {
+                let mut a = st.pop().unwrap();
+                a *= F::from_i32(*k);
+                st.push(a);
+            }
+            Tok::DivS(k) => {
+                let a = st.pop().unwrap();
+                st.push(a / F::from_i32(*k));
+            }
+            Tok::DivSA(k) => {
+                let mut a = st.pop().unwrap();
+                a /= F::from_i32(*k);
+                st.push(a);
+            }
+        }
+    }
+    st.pop().unwrap()
 }
 
 fn call<F: HF>(fft: &mut FFT<F>, op: &Op) -> Out {
@@ -163,6 +420,13 @@ fn call<F: HF>(fft: &mut FFT<F>, op: &Op) -> Out {
             let prod: Vec<Complex<F>> = fa.iter().zip(fb.iter()).map(|(x, y)| *x * *y).collect();
             let mut res = res.clone();
             fft.fft_inv_into(&prod, &mut res);
+            Out::IVec(res)
+        }
+        Op::Fx(toks, vs, n, res) => {
+            let leaves: Vec<Vec<Complex<F>>> = vs.iter().map(|v| fft.fft(v, *n)).collect();
+            let spec: Vec<Complex<F>> = (0..*n).map(|p| eval_bin(toks, &leaves, p)).collect();
+            let mut res = res.clone();
+            fft.fft_inv_into(&spec, &mut res);
             Out::IVec(res)
         }
     });
@@ -233,26 +497,162 @@ fn cyclic(c: &[i128], n: usize) -> Vec<i128> {
     out
 }
 
+// ---- exact oracle of `fx`: arithmetic in Z[i][x] / (x^n - 1), sequences of Gaussian integers (re, im) ----
+
+type GSeq = Vec<(i128, i128)>;
+
+fn g_cyc_mul(x: &GSeq, y: &GSeq) -> GSeq {
+    let n = x.len();
+    let mut out = vec![(0i128, 0i128); n];
+    for (s, &(xr, xi)) in x.iter().enumerate() {
+        if xr == 0 && xi == 0 {
+            continue;
+        }
+        for (t, &(yr, yi)) in y.iter().enumerate() {
+            if yr == 0 && yi == 0 {
+                continue;
+            }
+            let u = (s + t) % n;
+            out[u].0 += xr * yr - xi * yi;
+            out[u].1 += xr * yi + xi * yr;
+        }
+    }
+    out
+}
+
+/// the sequence whose transform is the complex conjugate of the transform of x
+fn g_conj(x: &GSeq) -> GSeq {
+    let n = x.len();
+    (0..n).map(|u| (x[(n - u) % n].0, -x[(n - u) % n].1)).collect()
+}
+
+fn g_unit_monomial(x: &GSeq) -> bool {
+    x.iter().filter(|v| **v != (0, 0)).count() == 1 && x.iter().all(|v| *v == (0, 0) || v.0 * v.0 + v.1 * v.1 == 1)
+}
+
+/// The coefficient sequence the expression denotes (None: the property says nothing — inexact scalar division,
+/// division by a spectrum that is not a unit monomial's).
+fn fx_den(toks: &[Tok], vs: &[Vec<i32>], n: usize) -> Option<GSeq> {
+    let mut st: Vec<GSeq> = vec![];
+    let delta = |v: (i128, i128)| -> GSeq {
+        let mut d = vec![(0i128, 0i128); n];
+        d[0] = v;
+        d
+    };
+    for t in toks {
+        match t {
+            Tok::Leaf(i) | Tok::LeafClone(i) | Tok::LeafCloneFrom(i) => {
+                let mut d = vec![(0i128, 0i128); n];
+                for (p, &x) in vs[*i].iter().enumerate() {
+                    d[p].0 = x as i128;
+                }
+                st.push(d);
+            }
+            Tok::Zero | Tok::DefaultZ => st.push(vec![(0, 0); n]),
+            Tok::One => st.push(delta((1, 0))),
+            Tok::I => st.push(delta((0, 1))),
+            Tok::Add | Tok::AddA | Tok::Sub | Tok::SubA | Tok::Mul | Tok::MulA | Tok::Div | Tok::DivA => {
+                let b = st.pop()?;
+                let a = st.pop()?;
+                let r: GSeq = match t {
+                    Tok::Add | Tok::AddA => a.iter().zip(b.iter()).map(|(x, y)| (x.0 + y.0, x.1 + y.1)).collect(),
+                    Tok::Sub | Tok::SubA => a.iter().zip(b.iter()).map(|(x, y)| (x.0 - y.0, x.1 - y.1)).collect(),
+                    Tok::Mul | Tok::MulA => g_cyc_mul(&a, &b),
+                    _ => {
+                        if !g_unit_monomial(&b) {
+                            return None;
+                        }
+                        g_cyc_mul(&a, &g_conj(&b))
+                    }
+                };
+                st.push(r);
+            }
+            Tok::Neg => {
+                let a = st.pop()?;
+                st.push(a.iter().map(|x| (-x.0, -x.1)).collect());
+            }
+            Tok::Conj => {
+                let a = st.pop()?;
+                st.push(g_conj(&a));
+            }
+            Tok::Abs2 | Tok::Absq => {
+                let a = st.pop()?;
+                st.push(g_cyc_mul(&a, &g_conj(&a)));
+            }
+            Tok::Scale(k) | Tok::ScaleA(k) => {
+                let a = st.pop()?;
+                st.push(a.iter().map(|x| (x.0 * *k as i128, x.1 * *k as i128)).collect());
+            }
+            Tok::DivS(k) | Tok::DivSA(k) => {
+                let a = st.pop()?;
+                let k = *k as i128;
+                if k == 0 || a.iter().any(|x| x.0 % k != 0 || x.1 % k != 0) {
+                    return None;
+                }
+                st.push(a.iter().map(|x| (x.0 / k, x.1 / k)).collect());
+            }
+        }
+    }
+    st.pop()
+}
+
+/// `(S, L)`: bound on the coefficient magnitudes with every product charged `max(S1,S2)^2 * min(L1,L2)` (for one
+/// product of two operands: the property's literal envelope), bound on the number of non-zero coefficients.
+fn fx_weight(toks: &[Tok], vs: &[Vec<i32>], n: usize) -> Option<(u128, u128)> {
+    let mut st: Vec<(u128, u128)> = vec![];
+    let n = n as u128;
+    for t in toks {
+        match t {
+            Tok::Leaf(i) | Tok::LeafClone(i) | Tok::LeafCloneFrom(i) => st.push((max_abs(&vs[*i]), (vs[*i].len() as u128).max(1))),
+            Tok::Zero | Tok::DefaultZ => st.push((0, 1)),
+            Tok::One | Tok::I => st.push((1, 1)),
+            Tok::Add | Tok::AddA | Tok::Sub | Tok::SubA => {
+                let b = st.pop()?;
+                let a = st.pop()?;
+                st.push((a.0.saturating_add(b.0), n.min(a.1 + b.1)));
+            }
+            Tok::Mul | Tok::MulA | Tok::Div | Tok::DivA => {
+                let b = st.pop()?;
+                let a = st.pop()?;
+                let m = a.0.max(b.0);
+                st.push((m.saturating_mul(m).saturating_mul(a.1.min(b.1)), n.min(a.1.saturating_mul(b.1))));
+            }
+            Tok::Neg | Tok::Conj | Tok::DivS(_) | Tok::DivSA(_) => {}
+            Tok::Abs2 | Tok::Absq => {
+                let a = st.pop()?;
+                st.push((a.0.saturating_mul(a.0).saturating_mul(a.1), n.min(a.1.saturating_mul(a.1))));
+            }
+            Tok::Scale(k) | Tok::ScaleA(k) => {
+                let a = st.pop()?;
+                st.push(((k.unsigned_abs() as u128).saturating_mul(a.0), a.1));
+            }
+        }
+    }
+    st.pop()
+}
+
+fn add_prefix(res: &[i64], c: &[i128]) -> Vec<i128> {
+    let mut r: Vec<i128> = res.iter().map(|&x| x as i128).collect();
+    for (x, y) in r.iter_mut().zip(c.iter()) {
+        *x += *y;
+    }
+    r
+}
+
 fn expected(op: &Op) -> Option<Vec<i128>> {
     match op {
         Op::M(a, b) => Some(conv_exact(a, b)),
-        Op::Mi(a, b, res) => {
-            let c = conv_exact(a, b);
-            let mut r: Vec<i128> = res.iter().map(|&x| x as i128).collect();
-            for (x, y) in r.iter_mut().zip(c.iter()) {
-                *x += *y;
+        Op::Mi(a, b, res) => Some(add_prefix(res, &conv_exact(a, b))),
+        Op::Fm(a, b, n) | Op::Fmx(a, b, n) => Some(cyclic(&conv_exact(a, b), fft_size(a.len(), *n))),
+        // destination + cyclic (size n) convolution on the first min(len, n) entries, unchanged beyond
+        Op::Fmi(a, b, n, res) => Some(add_prefix(res, &cyclic(&conv_exact(a, b), fft_size(a.len(), *n)))),
+        Op::Fx(toks, vs, n, res) => {
+            let d = fx_den(toks, vs, *n)?;
+            if d.iter().any(|v| v.1 != 0) {
+                return None;
             }
-            Some(r)
-        }
-        Op::Fm(a, b, n) | Op::Fmx(a, b, n) => Some(cyclic(&conv_exact(a, b), *n)),
-        Op::Fmi(a, b, n, res) => {
-            // destination + cyclic (size n) convolution on the first min(len, n) entries, unchanged beyond
-            let c = cyclic(&conv_exact(a, b), *n);
-            let mut r: Vec<i128> = res.iter().map(|&x| x as i128).collect();
-            for (x, y) in r.iter_mut().zip(c.iter()) {
-                *x += *y;
-            }
-            Some(r)
+            let c: Vec<i128> = d.iter().map(|v| v.0).collect();
+            Some(add_prefix(res, &c))
         }
         _ => None,
     }
@@ -283,6 +683,9 @@ fn value_in_domain(op: &Op, f32_: bool) -> bool {
         Op::Mi(a, b, r) => env(a, b) && small(r),
         Op::Fm(a, b, _) | Op::Fmx(a, b, _) => !a.is_empty() && !b.is_empty() && env(a, b),
         Op::Fmi(a, b, _, r) => !a.is_empty() && !b.is_empty() && env(a, b) && small(r),
+        Op::Fx(toks, vs, n, r) => {
+            vs.iter().all(|v| !v.is_empty()) && small(r) && matches!(fx_weight(toks, vs, *n), Some((s, _)) if s <= prec_bound(f32_))
+        }
         _ => false,
     }
 }
@@ -298,7 +701,7 @@ fn out_len(o: &Out) -> usize {
 /// Raw column: only values the property fixes are compared as values; bit patterns of fft() outputs, fft_inv of
 /// arbitrary complex input and out-of-envelope products are just a length (full digests with C04_DIAG=1: a
 /// diagnostic run recorded in the evidence, never a verdict).
-fn raw_of(op: &Op, used: &Out, diag: bool, in_dom: bool) -> String {
+fn raw_of(op: &Op, used: &Out, diag: bool, valued: bool) -> String {
     match used {
         Out::Unit | Out::Panic(_) | Out::Invalid => show_out(used),
         _ => {
@@ -308,7 +711,7 @@ fn raw_of(op: &Op, used: &Out, diag: bool, in_dom: bool) -> String {
             match op {
                 Op::F(..) | Op::Fi(..) | Op::Inv(..) | Op::Ii(..) => format!("len={}", out_len(used)),
                 _ => {
-                    if in_dom {
+                    if valued {
                         show_out(used)
                     } else {
                         format!("len={}", out_len(used))
@@ -319,54 +722,96 @@ fn raw_of(op: &Op, used: &Out, diag: bool, in_dom: bool) -> String {
     }
 }
 
-fn view_of(op: &Op, used: &Out, fresh: &Out, prec_is_f32: bool, in_dom: bool) -> String {
+/// `base`: what the non-accumulating sibling (`fft` for `fft_into`, `fft_inv` for `fft_inv_into`) returns on a brand-new object.
+fn view_of<F: HF>(op: &Op, used: &Out, fresh: &Out, base: &Out, exp: &Option<Vec<i128>>) -> String {
     let raw = show_out(used);
     let same = if used == fresh { "fresh=same" } else { "fresh=diff" };
     match (op, used) {
         (Op::U(_), _) | (_, Out::Panic(_)) | (_, Out::Invalid) => raw,
-        (Op::F(..), Out::CVec(xs)) => format!("len={} {}", xs.len(), same),
+        (Op::F(..), Out::CVec(xs)) => {
+            // PartialEq of Complex<F>, both methods, against the output of the brand-new object
+            let (eq, ne) = match fresh {
+                Out::CVec(ys) => {
+                    let a = of_cbits::<F>(xs);
+                    let b = of_cbits::<F>(ys);
+                    (a.len() == b.len() && a.iter().zip(b.iter()).all(|(x, y)| x == y), a.len() != b.len() || a.iter().zip(b.iter()).any(|(x, y)| x != y))
+                }
+                _ => (false, true),
+            };
+            // ... and both methods on every pair of the first 8 bins (bins 0 and n/2 of a real input differ in one
+            // component only), against the component-wise float comparison
+            let a = of_cbits::<F>(xs);
+            let k = a.len().min(8);
+            let peq = (0..k).all(|i| {
+                (0..k).all(|j| {
+                    let want = a[i].x == a[j].x && a[i].y == a[j].y;
+                    (a[i] == a[j]) == want && (a[i] != a[j]) == !want
+                })
+            });
+            format!("len={} {} eq={} ne={} peq={}", xs.len(), same, eq, ne, if peq { "ok" } else { "wrong" })
+        }
         (Op::Fi(v, n, rx, ry), Out::CVec(xs)) => {
             // destination entries beyond the transform size must be untouched, bit for bit
             let k = fft_size(v.len(), *n);
-            let orig: Vec<(u64, u64)> = if prec_is_f32 { cbits(&cplx::<f32>(rx, ry)) } else { cbits(&cplx::<f64>(rx, ry)) };
+            let dest = cplx::<F>(rx, ry);
+            let orig = cbits(&dest);
             let keep = xs.len() == orig.len() && xs.iter().skip(k).eq(orig.iter().skip(k));
-            format!("len={} {} tail={}", xs.len(), same, if keep { "kept" } else { "changed" })
+            // on the common prefix: destination += what fft(v, n) returns (component-wise float addition)
+            let add = match base {
+                Out::CVec(b) => {
+                    let b = of_cbits::<F>(b);
+                    xs.len() == dest.len()
+                        && (0..dest.len()).all(|i| {
+                            let want = if i < b.len() { (dest[i].x + b[i].x, dest[i].y + b[i].y) } else { (dest[i].x, dest[i].y) };
+                            xs[i] == (want.0.bits(), want.1.bits())
+                        })
+                }
+                _ => false,
+            };
+            format!("len={} {} tail={} add={}", xs.len(), same, if keep { "kept" } else { "changed" }, if add { "ok" } else { "wrong" })
         }
         (Op::Inv(..), _) => same.to_string(),
         (Op::Ii(xs, _, res), Out::IVec(out)) => {
             let keep = out.len() == res.len() && out.iter().skip(xs.len()).eq(res.iter().skip(xs.len()));
-            format!("{} tail={}", same, if keep { "kept" } else { "changed" })
+            let add = match base {
+                Out::IVec(b) => {
+                    out.len() == res.len()
+                        && (0..res.len()).all(|i| out[i] as i128 == res[i] as i128 + if i < b.len() { b[i] as i128 } else { 0 })
+                }
+                _ => false,
+            };
+            format!("{} tail={} add={}", same, if keep { "kept" } else { "changed" }, if add { "ok" } else { "wrong" })
         }
         (Op::Ii(..), _) => same.to_string(),
-        (_, Out::IVec(xs)) => {
-            if !in_dom {
-                return same.to_string();
+        (_, Out::IVec(xs)) => match exp {
+            None => same.to_string(),
+            Some(e) => {
+                let orc = if e.len() == xs.len() && e.iter().zip(xs.iter()).all(|(p, q)| *p == *q as i128) { "oracle=exact" } else { "oracle=wrong" };
+                format!("{} {} {}", raw, same, orc)
             }
-            let orc = match expected(op) {
-                Some(e) => {
-                    if e.len() == xs.len() && e.iter().zip(xs.iter()).all(|(p, q)| *p == *q as i128) {
-                        "oracle=exact"
-                    } else {
-                        "oracle=wrong"
-                    }
-                }
-                None => "oracle=none",
-            };
-            format!("{} {} {}", raw, same, orc)
-        }
+        },
         _ => raw,
     }
 }
 
-fn run_ops<F: HF>(ops: &[Op], ctor: &str) -> String {
-    if ops.is_empty() {
+fn sibling(op: &Op) -> Option<Op> {
+    match op {
+        Op::Fi(v, n, _, _) => Some(Op::F(v.clone(), *n)),
+        Op::Ii(xs, ys, _) => Some(Op::Inv(xs.clone(), ys.clone())),
+        _ => None,
+    }
+}
+
+fn run_steps<F: HF>(steps: &[Step], ctor: &str) -> String {
+    if steps.is_empty() {
         return out2("INVALID", "INVALID");
     }
     let diag = std::env::var("C04_DIAG").is_ok();
     let f32_ = F::NAME == "f32";
-    let (last, hist) = ops.split_last().unwrap();
-    // how the measured object is obtained: new() / default() / clone of a fresh one / clone after the history
-    let mut obj = match ctor {
+    let (last, hist) = steps.split_last().unwrap();
+    // how object 0 is obtained: new() / default() / clone of a fresh one (histclone: the measured call runs on a clone
+    // of its object); objects 1..3 start as new()
+    let obj0 = match ctor {
         "default" => FFT::<F>::default(),
         "clone" => {
             let o = FFT::<F>::new();
@@ -374,34 +819,70 @@ fn run_ops<F: HF>(ops: &[Op], ctor: &str) -> String {
         }
         _ => FFT::<F>::new(),
     };
-    for op in hist {
-        let _ = call(&mut obj, op);
+    let mut pool: Vec<FFT<F>> = vec![obj0, FFT::new(), FFT::new(), FFT::new()];
+    for st in hist {
+        match st {
+            Step::Call(k, op) => {
+                let _ = call(&mut pool[*k], op);
+            }
+            Step::Clone(j, k) => {
+                let c = pool[*j].clone();
+                pool[*k] = c;
+            }
+            Step::CloneFrom(j, k) => {
+                if j == k {
+                    let src = pool[*j].clone();
+                    pool[*k].clone_from(&src);
+                } else if j < k {
+                    let (lo, hi) = pool.split_at_mut(*k);
+                    hi[0].clone_from(&lo[*j]);
+                } else {
+                    let (lo, hi) = pool.split_at_mut(*j);
+                    lo[*k].clone_from(&hi[0]);
+                }
+            }
+            Step::Default(k) => pool[*k] = FFT::<F>::default(),
+            Step::Fresh(k) => pool[*k] = FFT::<F>::new(),
+            Step::Take(j, k) => {
+                let v = std::mem::take(&mut pool[*j]);
+                pool[*k] = v;
+            }
+        }
     }
+    let (k, last) = match last {
+        Step::Call(k, op) => (*k, op),
+        _ => return out2("ok", "ok"),
+    };
     let used = if ctor == "histclone" {
-        let mut c = obj.clone();
+        let mut c = pool[k].clone();
         call(&mut c, last)
     } else {
-        call(&mut obj, last)
+        call(&mut pool[k], last)
     };
     let mut fresh_obj = FFT::<F>::new();
     let fresh = call(&mut fresh_obj, last);
+    let base = match sibling(last) {
+        Some(s) => call(&mut FFT::<F>::new(), &s),
+        None => Out::Unit,
+    };
     let in_dom = value_in_domain(last, f32_);
-    out2(&raw_of(last, &used, diag, in_dom), &view_of(last, &used, &fresh, f32_, in_dom))
+    let exp = if in_dom { expected(last) } else { None };
+    out2(&raw_of(last, &used, diag, exp.is_some()), &view_of::<F>(last, &used, &fresh, &base, &exp))
 }
 
 fn run_case(line: &str) -> String {
     let mut parts = line.split(';').map(|p| p.trim());
     let hdr: Vec<&str> = parts.next().unwrap_or("").split_whitespace().collect();
-    let ops: Option<Vec<Op>> = parts.map(parse_op).collect();
-    let ops = match ops {
+    let steps: Option<Vec<Step>> = parts.map(parse_step).collect();
+    let steps = match steps {
         Some(o) => o,
         None => return out2("BAD-CASE", "BAD-CASE"),
     };
     match hdr.as_slice() {
-        ["fft", "f64"] => run_ops::<f64>(&ops, "new"),
-        ["fft", "f32"] => run_ops::<f32>(&ops, "new"),
-        ["fft", "f64", c] if CTORS.contains(c) => run_ops::<f64>(&ops, c),
-        ["fft", "f32", c] if CTORS.contains(c) => run_ops::<f32>(&ops, c),
+        ["fft", "f64"] => run_steps::<f64>(&steps, "new"),
+        ["fft", "f32"] => run_steps::<f32>(&steps, "new"),
+        ["fft", "f64", c] if CTORS.contains(c) => run_steps::<f64>(&steps, c),
+        ["fft", "f32", c] if CTORS.contains(c) => run_steps::<f32>(&steps, c),
         _ => out2("BAD-CASE", "BAD-CASE"),
     }
 }
@@ -534,7 +1015,7 @@ impl<'a> Gen<'a> {
     /// a small multiplication used as a history op, transform size about `n`
     fn hist_op(&mut self, prec: &str, n: usize) -> String {
         let n = n.max(2);
-        let kind = self.rng.below(6);
+        let kind = self.rng.below(7);
         if n > 2048 || kind == 0 {
             self.stats.bump("hist_op:u");
             return format!("u {}", n);
@@ -562,11 +1043,79 @@ impl<'a> Gen<'a> {
                 let v = coeffs(&mut self.rng, (n / 2 + 1).min(n), m, "mixed");
                 format!("f {} {}", join(&v), n)
             }
+            5 if n <= 256 => {
+                self.stats.bump("hist_op:fx");
+                let form = *self.rng.pick(&["0,1,*=", "c0,1,*", "Dz,0,1,*,+=", "0,1,conj,*"]);
+                format!("fx {} {} - {} {}", form, n, join(&a), join(&b))
+            }
             _ => {
                 self.stats.bump("hist_op:fm");
                 format!("fm {} {} {}", join(&a), join(&b), n)
             }
         }
+    }
+
+    /// Spread the steps of a case over the 4 live objects of the pool and put pool operations (clone, clone_from,
+    /// default, new, mem::take) between them: several objects alive and used interleaved, objects cloned
+    /// mid-history with both copies used afterwards, objects replaced by default()/new() and moved out of.
+    fn poolify(&mut self, ops: Vec<String>) -> Vec<String> {
+        let mut out = vec![];
+        let last = ops.len() - 1;
+        // the object the measured call runs on; most of the history goes to the object whose state ends up there
+        let target = self.rng.below(POOL as u64) as usize;
+        let mut lineage = target;
+        if self.rng.chance(1, 2) {
+            lineage = self.rng.below(POOL as u64) as usize;
+        }
+        for (i, op) in ops.into_iter().enumerate() {
+            if i == last {
+                if lineage != target {
+                    let how = self.rng.below(3);
+                    out.push(match how {
+                        0 => format!("cl {} {}", lineage, target),
+                        1 => format!("cf {} {}", lineage, target),
+                        _ => format!("tk {} {}", lineage, target),
+                    });
+                    self.stats.bump(["pool:clone-into-target", "pool:clone_from-into-target", "pool:take-into-target"][how as usize]);
+                    if how < 2 && self.rng.chance(1, 2) {
+                        // both copies are used afterwards
+                        let n = 2usize << self.rng.below(5);
+                        out.push(format!("@{} u {}", lineage, n));
+                    }
+                }
+                out.push(format!("@{} {}", target, op));
+                break;
+            }
+            let k = if self.rng.chance(2, 3) { lineage } else { self.rng.below(POOL as u64) as usize };
+            out.push(if k == 0 && self.rng.chance(1, 2) { op } else { format!("@{} {}", k, op) });
+            if self.rng.chance(1, 3) {
+                // a pool operation that does not destroy the lineage object's history
+                let mut j = self.rng.below(POOL as u64) as usize;
+                let mut d = self.rng.below(POOL as u64) as usize;
+                if d == lineage {
+                    d = (d + 1) % POOL;
+                }
+                if j == lineage && self.rng.chance(1, 2) {
+                    j = (j + 1) % POOL;
+                }
+                let kind = self.rng.below(5);
+                self.stats.bump(["pool:cl", "pool:cf", "pool:df", "pool:nw", "pool:tk"][kind as usize]);
+                out.push(match kind {
+                    0 => format!("cl {} {}", j, d),
+                    1 => format!("cf {} {}", j, d),
+                    2 => format!("df {}", d),
+                    3 => format!("nw {}", d),
+                    _ => {
+                        // take moves the lineage along with the value
+                        if j == lineage {
+                            lineage = d;
+                        }
+                        format!("tk {} {}", j, d)
+                    }
+                });
+            }
+        }
+        out
     }
 
     /// ops performed on the object before the measured call; `n` = transform size of the measured call
@@ -710,7 +1259,251 @@ impl<'a> Gen<'a> {
             _ => "",
         };
         self.stats.bump(&format!("ctor:{}", if ctor.is_empty() { "new" } else { ctor.trim() }));
+        // one case in six runs on a pool of live objects used interleaved
+        let ops = if self.rng.chance(1, 6) {
+            self.stats.bump("pool:cases");
+            self.poolify(ops)
+        } else {
+            ops
+        };
         (self.emit)(format!("fft {}{} ; {}", prec, ctor, ops.join(" ; ")));
+    }
+
+    /// non-zero small destination
+    fn dest_small(&mut self, rl: usize) -> Vec<i64> {
+        (0..rl)
+            .map(|i| {
+                let r = self.rng.range_i64(-1000, 1000);
+                if r == 0 {
+                    7 + i as i64
+                } else {
+                    r
+                }
+            })
+            .collect()
+    }
+
+    /// Emit one degenerate-size case: constructor kinds cycle, a light history (none / larger table / tiny call /
+    /// other live objects), the measured op as given.
+    fn emit_degenerate(&mut self, prec: &str, idx: usize, last: String) {
+        let ctor = CTORS[idx % CTORS.len()];
+        let hist: Vec<String> = match (idx / 4) % 5 {
+            0 => vec![],
+            1 => vec!["u 16".to_string()],
+            2 => vec!["m 3 4,5".to_string()],
+            3 => vec!["@1 m 1,2,3 4,5,6".to_string(), "cl 1 2".to_string(), "@2 fmi 2 3 1 5".to_string()],
+            _ => vec!["fmi 6 -7 1 9,9".to_string(), "ii 5 0 3,3".to_string()],
+        };
+        let mut ops = hist;
+        ops.push(last);
+        self.stats.bump("stream:degenerate");
+        self.stats.bump(&format!("ctor:{}", ctor));
+        (self.emit)(format!("fft {} {} ; {}", prec, ctor, ops.join(" ; ")));
+    }
+
+    /// Stream `degenerate`: EVERY entry point at transform sizes 1, 2, 4 (and the auto-size n = 0), operands of length
+    /// 0..4, destinations of every length around the written prefix (0, 1, shorter, equal, longer, longer than 2n), all
+    /// destinations NON-ZERO (an accumulate-into function that overwrites is visible only then).
+    fn degenerate(&mut self, thorough: bool) {
+        let mut idx = 0usize;
+        for prec in ["f64", "f32"] {
+            let m = if prec == "f64" { 1000 } else { 9 };
+            // multiply_into, operands of length 1..3
+            for la in 1..=3usize {
+                for lb in 1..=3usize {
+                    let l = la + lb - 1;
+                    let mut dls = vec![0, 1, 2, l.saturating_sub(1), l, l + 1, l + 3];
+                    dls.sort();
+                    dls.dedup();
+                    for rl in dls {
+                        idx += 1;
+                        let a = coeffs(&mut self.rng, la, m, "mixed");
+                        let b = coeffs(&mut self.rng, lb, m, "alt");
+                        let d = self.dest_small(rl);
+                        self.stats.bump("degenerate:mi");
+                        self.emit_degenerate(prec, idx, format!("mi {} {} {}", join(&a), join(&b), join(&d)));
+                    }
+                }
+            }
+            // forward / pointwise / inverse, every route, transform sizes 1, 2, 4, 8 and auto-size
+            for la in 1..=4usize {
+                for lb in 1..=4usize {
+                    for n in [0usize, 1, 2, 4, 8] {
+                        let nn = fft_size(la, n);
+                        if nn != fft_size(lb, n) || la > nn || lb > nn {
+                            continue;
+                        }
+                        let mm = env_max(prec, la, lb).min(m);
+                        let a = coeffs(&mut self.rng, la, mm, "allmax");
+                        let b = coeffs(&mut self.rng, lb, mm, "mixed");
+                        idx += 1;
+                        let opk = if idx % 2 == 0 { "fm" } else { "fmx" };
+                        self.stats.bump(&format!("degenerate:{}:n={}", opk, n));
+                        self.emit_degenerate(prec, idx, format!("{} {} {} {}", opk, join(&a), join(&b), n));
+                        let mut dls = vec![0, 1, 2, nn.saturating_sub(1), nn, nn + 1, 2 * nn, 2 * nn + 1];
+                        dls.sort();
+                        dls.dedup();
+                        for rl in dls {
+                            if !thorough && nn == 8 && rl % 2 == 0 {
+                                continue;
+                            }
+                            idx += 1;
+                            let d = self.dest_small(rl);
+                            self.stats.bump(&format!("degenerate:fmi:n={}", n));
+                            self.emit_degenerate(prec, idx, format!("fmi {} {} {} {}", join(&a), join(&b), n, join(&d)));
+                        }
+                    }
+                }
+            }
+            // fft / fft_into: lengths 0..3, sizes 0 (auto), 1, 2, 4
+            for lv in 0..=3usize {
+                for n in [0usize, 1, 2, 4] {
+                    let nn = fft_size(lv, n);
+                    if lv > nn {
+                        continue;
+                    }
+                    let v = if lv == 0 { vec![] } else { coeffs(&mut self.rng, lv, 1000, "mixed") };
+                    idx += 1;
+                    self.stats.bump("degenerate:f");
+                    self.emit_degenerate(prec, idx, format!("f {} {}", join(&v), n));
+                    let mut dls = vec![0, 1, 2, nn, nn + 1, 2 * nn + 1];
+                    dls.sort();
+                    dls.dedup();
+                    for rl in dls {
+                        idx += 1;
+                        let rx: Vec<i32> = self.dest_small(rl).iter().map(|&x| x as i32).collect();
+                        let ry: Vec<i32> = self.dest_small(rl).iter().map(|&x| x as i32).collect();
+                        self.stats.bump("degenerate:fi");
+                        self.emit_degenerate(prec, idx, format!("fi {} {} {} {}", join(&v), n, join(&rx), join(&ry)));
+                    }
+                }
+            }
+            // fft_inv / fft_inv_into of arbitrary complex input, sizes 1, 2, 4
+            for n in [1usize, 2, 4] {
+                for rep in 0..3 {
+                    let xs = coeffs(&mut self.rng, n, 1000, if rep == 0 { "allmax" } else { "mixed" });
+                    let ys = coeffs(&mut self.rng, n, 1000, if rep == 1 { "allneg" } else { "mixed" });
+                    idx += 1;
+                    self.stats.bump("degenerate:inv");
+                    self.emit_degenerate(prec, idx, format!("inv {} {}", join(&xs), join(&ys)));
+                    let mut dls = vec![0, 1, n.saturating_sub(1), n, n + 1, 2 * n + 1];
+                    dls.sort();
+                    dls.dedup();
+                    for rl in dls {
+                        idx += 1;
+                        let d = self.dest_small(rl);
+                        self.stats.bump("degenerate:ii");
+                        self.emit_degenerate(prec, idx, format!("ii {} {} {}", join(&xs), join(&ys), join(&d)));
+                    }
+                }
+            }
+            for n in [1usize, 2, 4] {
+                idx += 1;
+                self.emit_degenerate(prec, idx, format!("u {}", n));
+            }
+        }
+    }
+
+    /// operand vectors of a spectral case: operands of the given lengths, magnitude `m`
+    fn fx_operands(&mut self, lens: &[usize], m: i64, monomial_last: bool, n: usize) -> Vec<Vec<i32>> {
+        let mut vs = vec![];
+        for (i, &l) in lens.iter().enumerate() {
+            if monomial_last && i + 1 == lens.len() {
+                // a unit monomial +-x^j, j < n
+                let j = self.rng.below(n as u64) as usize;
+                let mut v = vec![0i32; j + 1];
+                v[j] = if self.rng.chance(1, 2) { 1 } else { -1 };
+                vs.push(v);
+            } else {
+                let pat = *self.rng.pick(&PATTERNS);
+                vs.push(coeffs(&mut self.rng, l, m, pat));
+            }
+        }
+        vs
+    }
+
+    /// Stream `spectral`: the PUBLIC operators of `Complex<F>` a caller can apply to spectra between the forward and the
+    /// inverse transform, each in its operator form and its assign form, with Copy and `.clone()` operands, `ZERO` and
+    /// `default()`: products (`*`, `*=`), sums and differences of products, negation, scaling and division by a scalar,
+    /// conjugation (= index reversal), `abs2` / `abs` (= autocorrelation), division by the spectrum of a unit monomial
+    /// (= cyclic shift), `ONE`, `I`.  Expected: the same expression evaluated exactly in Z[i][x]/(x^n - 1).
+    fn spectral(&mut self, thorough: bool) {
+        // (rpn, number of operands, last operand is a unit monomial)
+        let templates: [(&str, usize, bool); 46] = [
+            ("0,1,*", 2, false), ("0,1,*=", 2, false), ("c0,c1,*", 2, false), ("c0,1,*=", 2, false), ("1,0,*=", 2, false),
+            ("Dz,0,1,*,+=", 2, false), ("Z,0,1,*,+", 2, false), ("0,1,*,Z,+=", 2, false), ("0,1,*,Dz,-", 2, false),
+            ("0,1,*,2,3,*,+", 4, false), ("0,1,*=,2,3,*=,+=", 4, false), ("0,1,*,2,3,*,-", 4, false), ("0,1,*,2,3,*,-=", 4, false),
+            ("0,1,*,neg", 2, false), ("Z,0,1,*,-=", 2, false), ("0,neg,1,neg,*", 2, false), ("0,1,+,2,*", 3, false), ("0,1,-=,2,*=", 3, false),
+            ("0,1,*,s2", 2, false), ("0,1,*,s=-3", 2, false), ("0,s4,1,*,d4", 2, false), ("0,s=2,1,*,d=2", 2, false), ("0,1,*,s8,d=-8", 2, false),
+            ("0,s-1,1,*=", 2, false), ("0,1,conj,*", 2, false), ("0,conj,1,*=", 2, false), ("0,conj,conj,1,*", 2, false), ("0,1,*,conj", 2, false),
+            ("0,abs2", 1, false), ("0,absq", 1, false), ("0,0,conj,*", 1, false), ("0,abs2,1,*", 2, false),
+            ("0,1,*,2,/", 3, true), ("0,1,*=,2,/=", 3, true), ("0,2,/,1,*", 3, true), ("0,1,/", 2, true), ("0,1,conj,/=", 2, true),
+            ("0,I,*,I,*", 1, false), ("0,I,/,I,/=", 1, false), ("0,O,*", 1, false), ("O,0,*=", 1, false), ("0,1,*,O,/", 2, false),
+            ("0,1,*,2,*", 3, false), ("0,1,*=,2,*=,3,+", 4, false), ("cf0,1,*", 2, false), ("0,cf1,*=", 2, false),
+        ];
+        let ks: &[u32] = if thorough { &[0, 1, 2, 3, 4, 5, 6, 7, 8, 9, 10] } else { &[0, 1, 2, 3, 5, 8] };
+        let mut idx = 0usize;
+        for prec in ["f64", "f32"] {
+            for (ti, &(rpn, cnt, mono)) in templates.iter().enumerate() {
+                for &k in ks {
+                    idx += 1;
+                    // larger sizes only for every third template (the exact oracles are quadratic in n)
+                    if k >= 6 && (ti + k as usize) % 3 != 0 && !thorough {
+                        continue;
+                    }
+                    let n = 1usize << k;
+                    // operand lengths: mostly no wrap-around (la + lb - 1 <= n), one case in four wraps (cyclic)
+                    let wrap = idx % 4 == 3 && n >= 4;
+                    let lens: Vec<usize> = (0..cnt)
+                        .map(|_| {
+                            let hi = if wrap { n } else { (n / 2).max(1) };
+                            1 + self.rng.below(hi as u64) as usize
+                        })
+                        .collect();
+                    // magnitude: the largest (shrinking) for which the envelope carried through the expression holds
+                    let toks = parse_rpn(rpn).expect("template");
+                    let mut m = env_max(prec, lens[0], *lens.get(1).unwrap_or(&lens[0])).max(1);
+                    if idx % 5 == 0 {
+                        m = 1 + self.rng.below(m as u64) as i64;
+                    }
+                    let mut vs = self.fx_operands(&lens, m, mono, n);
+                    let bound = prec_bound(prec == "f32");
+                    let mut tries = 0;
+                    while !matches!(fx_weight(&toks, &vs, n), Some((s, _)) if s <= bound) && m > 1 && tries < 80 {
+                        m = (m * 2 / 3).max(1);
+                        vs = self.fx_operands(&lens, m, mono, n);
+                        tries += 1;
+                    }
+                    let l = n;
+                    let rl = match idx % 6 {
+                        0 => 0,
+                        1 => l.saturating_sub(1),
+                        2 => l + 1 + self.rng.below(3) as usize,
+                        3 => 2 * l + 1,
+                        _ => l,
+                    };
+                    let d = if idx % 7 == 0 { vec![0i64; rl] } else { self.dest(rl) };
+                    let last = format!("fx {} {} {} {}", rpn, n, join(&d), vs.iter().map(|v| join(v)).collect::<Vec<_>>().join(" "));
+                    let hist = HIST[idx % HIST.len()];
+                    let mut ops = self.history(prec, hist, n);
+                    ops.push(last);
+                    let op_probe = Op::Fx(toks.clone(), vs.clone(), n, d.clone());
+                    let dom = value_in_domain(&op_probe, prec == "f32") && expected(&op_probe).is_some();
+                    self.stats.bump(if dom { "fx:valued" } else { "fx:not-valued" });
+                    self.stats.bump(&format!("fx:template:{}", rpn));
+                    self.stats.bump("stream:spectral");
+                    self.stats.bump(&format!("prec:{}", prec));
+                    let ctor = match idx % 8 {
+                        0 => " default",
+                        1 => " clone",
+                        2 => " histclone",
+                        _ => "",
+                    };
+                    let ops = if idx % 5 == 1 { self.poolify(ops) } else { ops };
+                    (self.emit)(format!("fft {}{} ; {}", prec, ctor, ops.join(" ; ")));
+                }
+            }
+        }
     }
 }
 
@@ -917,6 +1710,10 @@ fn gen(args: &Args, emit: &mut dyn FnMut(String), stats: &mut Stats) {
             }
         }
     }
+
+    // (iv-d) degenerate sizes for every entry point; the operators of Complex<F> on spectra
+    g.degenerate(thorough);
+    g.spectral(thorough);
 
     // (v) out-of-domain (spec `any`): asserts of update_n / non-power-of-two sizes, coefficients far outside the envelope
     for n in [3usize, 5, 6, 12, 100] {
